@@ -78,7 +78,7 @@ func TestC01Session(t *testing.T) {
 		fs := sim.DrawFateScript(rt, c01FateOpts)
 		app := drawSessApps(rt, pairMSS(cfg), 30, 150_000)
 		var d snmpDelta
-		var dup, smallReads int
+		var dup, smallReads, vecWrites int
 		completed := false
 		rapid.SyncTest(rt, func(rt *rapid.T) {
 			before := kcp.DefaultSnmp.Copy()
@@ -91,6 +91,7 @@ func TestC01Session(t *testing.T) {
 			err = p.Run(fs.EndTime()+600_000, false)
 			completed = p.Complete()
 			smallReads = p.SmallReads()
+			vecWrites = p.VecWrites
 			dup = s.Duplicated
 			p.Finish(nil)
 			d = snmpSince(before)
@@ -116,6 +117,9 @@ func TestC01Session(t *testing.T) {
 		}
 		if smallReads > 0 {
 			cl = append(cl, "read_smaller_than_message")
+		}
+		if vecWrites > 0 {
+			cl = append(cl, "writebuffers_with_several_buffers")
 		}
 		if completed {
 			cl = append(cl, "completed")
